@@ -159,10 +159,18 @@ pub fn toml_value_from_str(string: &str) -> toml::Value {
 
     // If there's an error parsing (because clap will not parse quotes, for example), we just treat what we're passed as a string:
     if let Ok(out) = try_parse {
-        out
-    } else {
-        toml::Value::String(string.to_string())
+        return out;
     }
+
+    // A lone TOML value like `true` or `"MyLibrary"` is not a TOML document, so the parse above rejects it.
+    // Read it as the value of a key instead, so that booleans are booleans and quoted strings lose their quotes:
+    if let Ok(mut table) = toml::from_str::<Table>(&format!("value = {string}")) {
+        if let Some(value @ (Value::Boolean(_) | Value::String(_))) = table.remove("value") {
+            return value;
+        }
+    }
+
+    toml::Value::String(string.to_string())
 }
 
 #[derive(Clone, PartialEq, Eq, Hash, Debug, Serialize)]
